@@ -481,6 +481,7 @@ def validate_trace(rep, pid, module, tpath, part="trace", cfg=None, workers=None
     if res.violated or res.rc != 0:
         raise ToolError("trace spec %s/%s failed: %s\n%s" % (pid, module, res.violated, "\n".join(res.lines[-30:])))
     rep.add_tlc(res, part)
+    rep.last_trace_result = res        # further tags of the trace specification (read by the check that defines them)
     bad = []
     for t in res.tuples("MISMATCH"):
         bad.append(int(t.split(",")[0].strip()))
